@@ -280,7 +280,7 @@ def configs(tier):
     else:
         plan = [((1, 2), 2, ('a', 'b'), (0, 1, 10, 11, 12), (0, 1, 10, 11), 2, 3),
                 ((1, 2), 3, ('a', 'b'), (0, 10, 11), (0, 10), 1, 2),
-                ((1, 2), 3, ('a',), (0, 10, 11), (0, 10), 2, 3),
+                ((1, 2), 3, ('a',), (0, 10, 11), (0, 10), 2, 2),
                 ((1, 2), 3, ('a', 'b', 'c'), (0, 11), (), 0, 2),
                 ((1, 2), 4, ('a',), (0, 11), (), 0, 2)]
     seen = set()
@@ -366,7 +366,7 @@ def check(tier, seed, procs):
                       'return after 1 s), 3 lookups (arrivals 0/11; loads return after a yield | raise; key a only with <=1 cancelled at 0 | keys a,b, none cancelled)'
                       if tier == 'quick' else
                       '2 lookups (keys a,b; arrivals 0/1/10/11/12; <=2 cancelled at 0/1/10/11; 3 load behaviours), 3 lookups (keys a,b; '
-                      'arrivals 0/10/11; <=1 cancelled at 0/10; 2 load behaviours | key a; arrivals 0/10/11; <=2 cancelled at 0/10; 3 load '
+                      'arrivals 0/10/11; <=1 cancelled at 0/10; 2 load behaviours | key a; arrivals 0/10/11; <=2 cancelled at 0/10; 2 load '
                       'behaviours | keys a,b,c; arrivals 0/11; none cancelled; 2 load behaviours), 4 lookups (key a; arrivals 0/11; '
                       'none cancelled; 2 load behaviours)')
                    + '; load behaviours: returns after a yield | raises after a yield | returns after 1 s'),
